@@ -232,7 +232,7 @@ pub fn check(s: &'static dyn Proto, c: &Case, st: &mut Stats, _k: &KnownFindings
 }
 
 pub const BUDGET: Budget = Budget {
-    quick: (6, 4, 2),
+    quick: (12, 8, 4),
     thorough: (6, 3, 2),
     shrink: 6,
 };
